@@ -822,6 +822,10 @@ class Frame:
             if isinstance(t, Sym) and t.head in ("list", "call:list", "list[]"):
                 if "list" in [n for n in names if isinstance(n, str)]:
                     return True
+            if isinstance(t, Sym) and t.head in ("name", "ext") and not t.args and names and all(isinstance(n, ClassInfo) for n in names):
+                import builtins as _b
+                if t.head == "ext" or hasattr(_b, t.text or ""):
+                    return False        # a builtin (dict, list, len) or an object of another library is no instance of a class of this library
             return None
         if isinstance(test, ast.Compare) and len(test.ops) == 1 and isinstance(test.ops[0], (ast.Is, ast.IsNot)):
             a = self.peek(test.left, p)
@@ -2368,6 +2372,9 @@ class Frame:
             return [(p, Sym("dict", tuple(base) + tuple(Sym("item", (Const(k), v)) for k, v in kw.items())))]
         if (name in ("typing.cast", "typing_extensions.cast") or (short == "cast" and callee.head == "ext")) and len(pos) == 2 and not kw:
             return [(p, pos[1])]        # cast(T, x) is x
+        if name in ("copy.deepcopy", "copy.copy") and len(pos) == 1 and not kw and (
+                isinstance(pos[0], (Const, Fn)) or (isinstance(pos[0], Sym) and pos[0].head in ("name", "ext", "class") and not pos[0].args)):
+            return [(p, pos[0])]        # functions, classes and constants are copied as themselves
         if name == "functools.update_wrapper" and pos:
             # update_wrapper(wrapper, wrapped, …) hands the wrapper back (what it copies is judged by R-UW)
             self.ev(p, "call", text=name, args=tuple(pos) + tuple(Sym("kw:" + k, (v,)) for k, v in sorted(kw.items())), line=line)
@@ -2375,8 +2382,16 @@ class Frame:
         if short in ("tuple", "list", "set", "frozenset", "iter") and len(pos) == 1 and not kw:
             t = pos[0]
             if isinstance(t, (Coll, Child, Seq)):
+                if getattr(self.ctx, "track_conversions", False) and short != "iter":
+                    self.ev(p, "call", text="conv:" + short, args=(t,), line=line)      # which builtin gathered the elements
                 return [(p, t)]
             return [(p, Sym(short, (t,)))]
+        if short in ("all", "any") and len(pos) == 1 and not kw and isinstance(pos[0], Coll) and getattr(pos[0], "kind", "") in ("list", "set", "dict") \
+                and (name in ("all", "any", "builtins.all", "builtins.any")):
+            # all()/any() stop at the first deciding element of a generator; handed a list / set comprehension, every element has been
+            # computed (and every predicate called) before they look at the first
+            self.ev(p, "call", text=name, args=tuple(pos), line=line)
+            return [(p, Sym("call:" + name, (Sym("eager", (pos[0],)),)))]
         if short in ("sorted", "reversed") and pos:
             return [(p, Sym("reordered:" + short, (pos[0],) + tuple(Sym("kw:" + k, (v,)) for k, v in sorted(kw.items()))))]
         if name in ("functools.partial",) or short == "partial" and callee.head == "ext":
